@@ -1,5 +1,5 @@
 """C01 Save/reload stability (structural necessary conditions; see DESIGN.md section 3, C01)"""
-from . import genrules
+from . import genrules, textrules
 
 
 def run(chk):
@@ -7,4 +7,7 @@ def run(chk):
     genrules.r_eq(chk, rule_complete=None, rule_layout="R01-eq")
     genrules.expansion_diffs(chk, "R01-shipped", lambda k: ("[stringify]" in k) or k.startswith("impl PartialEq") or "Display" in k,
                              "generated stringify/PartialEq/Display items identical (canonical form) to the generator's output")
+    textrules.r01_esc(chk)
+    textrules.r01_fmt(chk)
+    textrules.r01_hex(chk)
     chk.assumptions += ["not decided: equality of the reloaded model and byte identity of the text for all inputs (runtime values)"]
